@@ -21,6 +21,9 @@ def obligations(tier):
     o = ob("C01", "e2c.requested.D12", "vt.harness.C01:justified", {"did": "D12", "steps": 7, "requested_first": True}, timeout=900)
     o["antecedents"] = ["c01_final"]
     obs.append(o)
+    o = ob("C01", "e2c.raw.D03r", "vt.harness.C01:justified", {"did": "D03r", "steps": 4, "bits": True, "statuses": ["succeeded"], "bit_values": [True, False, None, "", [], {}, 0, "x"]}, timeout=900)
+    o["antecedents"] = ["c01_final"]
+    obs.append(o)
     obs.append(ob("C01", "twin.D03", "vt.harness.C01:justified", {"did": "D03", "steps": 5, "bits": True, "twin": True}, timeout=60))
     for o in obs:
         if "e2c." in o["id"]:
